@@ -98,18 +98,14 @@ fn whitespace_5() { check_whitespace::<5>() }
 #[kani::proof]
 #[kani::unwind(10)]
 fn whitespace_8() { check_whitespace::<8>() }
-#[kani::proof]
-#[kani::unwind(12)]
-fn hex_4() { check_hex::<4>() }
+// (hex_4: 'unwinding bound too small' even at unwind 12 because of String/from_str_radix internals, hex_5: > 12 min and 16 GB;
+//  email_4: CBMC timed out after 40 min. Both were dropped; lex_hex_number / lex_email_address stay ASSUMED in unit lexing.)
 #[kani::proof]
 #[kani::unwind(7)]
 fn hostname_4() { check_hostname::<4>() }
 #[kani::proof]
 #[kani::unwind(7)]
 fn url_4() { check_url::<4>() }
-#[kani::proof]
-#[kani::unwind(23)]
-fn email_4() { check_email::<4>() }
 
 // (a harness for lex_number - str::parse::<f64> on symbolic text - does not finish: CBMC timed out after 20 min at
 // length 2; lex_number's found_ok contract stays ASSUMED, see DESIGN 6.4)
